@@ -241,6 +241,48 @@ pub fn explore(ctx: &mut Ctx, label: &str) {
         jax::cleanup();
     }
 
+    // ---- structured large graphs: inheritance across more than 30 ancestors / parents
+    {
+        let family = super::common::large_family();
+        ctx.space(&format!("{label}/large-structured"), &format!("{} large shapes; gene 11 on the last term, gene 22 on every 7th term, OMIM on the middle term, ORPHA 77 on the top term and ORPHA 78 on the last two terms, bare records; facts in list order and reversed; Builder, binary v3, JAX", family.len()));
+        for (base, what) in &family {
+            if !ctx.take() {
+                continue;
+            }
+            ctx.state();
+            ctx.nontrivial();
+            let ids: Vec<u32> = base.terms.iter().map(|t| t.id).collect();
+            let n = ids.len();
+            let mut anns: Vec<AnnFact> = vec![];
+            anns.push(Facts::ann(crate::model::Kind::Gene, 11, "GENE1", Some(ids[n - 1])));
+            for i in (0..n).step_by(7) {
+                anns.push(Facts::ann(crate::model::Kind::Gene, 22, "GENE2", Some(ids[i])));
+            }
+            anns.push(Facts::ann(crate::model::Kind::Gene, 33, "GENE3", None));
+            anns.push(Facts::ann(crate::model::Kind::Omim, 600_001, "Disease one", Some(ids[n / 2])));
+            anns.push(Facts::ann(crate::model::Kind::Omim, 600_002, "Disease two, bare", None));
+            anns.push(Facts::ann(crate::model::Kind::Orpha, 77, "Orpha one", Some(ids[0])));
+            anns.push(Facts::ann(crate::model::Kind::Orpha, 78, "Orpha two", Some(ids[n - 1])));
+            anns.push(Facts::ann(crate::model::Kind::Orpha, 78, "Orpha two", Some(ids[n - 2])));
+            anns.push(Facts::ann(crate::model::Kind::Orpha, 79, "Orpha three, bare", None));
+            let f = Facts { anns, ..base.clone() };
+            let r = RefOnt::derive(&f);
+            for reversed in [false, true] {
+                let mut g = f.clone();
+                if reversed {
+                    g.anns.reverse();
+                    g.terms.reverse();
+                }
+                let w = format!("{what}; {}", if reversed { "terms and annotation facts reversed" } else { "list order" });
+                via_builder(ctx, &g, &r, Mode::Minimal, &w);
+                via_binary(ctx, &g, &EncOpts::v(3), &w);
+                via_jax(ctx, &g, &JaxOpts::default(), false, &w);
+            }
+            ctx.sample(|| json!({"shape": what, "n_terms": n}));
+        }
+        jax::cleanup();
+    }
+
     // ---- binary path (ids contain both roots)
     {
         let n = 4;
@@ -383,6 +425,44 @@ pub fn explore(ctx: &mut Ctx, label: &str) {
     }
 }
 
+/// sub_ontology with the exact oracle of C14 (kept records list exactly the retained subset of their direct
+/// terms) on sources with modifier roots, for the annotation property's "sub_ontology" construction path
+fn sub_exact(ctx: &mut Ctx, label: &str) {
+    use std::collections::BTreeMap;
+    let family = super::common::family_e(1, 2, &[200, 7]);
+    ctx.space(&format!("{label}/sub_ontology/exact-records"), &format!("{} sources of family E (k <= 2; defaults, so HP:5 is a modifier root) x every root x single leaves and ordered pairs: kept records list exactly the retained subset of their direct terms", family.len()));
+    for (f, what) in &family {
+        if !ctx.take() {
+            continue;
+        }
+        ctx.state();
+        ctx.nontrivial();
+        let r = RefOnt::derive(f);
+        let ids: Vec<u32> = f.terms.iter().map(|t| t.id).collect();
+        let up: BTreeMap<u32, BTreeMap<u32, usize>> = ids.iter().map(|i| (*i, r.up_distances(*i))).collect();
+        ctx.transitions(f.n_steps());
+        let Ok(Ok(src)) = drive::from_bytes(&crate::encode::encode(f, &EncOpts::v(3))) else {
+            ctx.violation("Ontology::from_bytes", "rejects a file laid out as documented", json!({"facts": f.to_json()}));
+            continue;
+        };
+        for &root in &ids {
+            let mut collections: Vec<Vec<u32>> = ids.iter().map(|a| vec![*a]).collect();
+            for a in &ids {
+                for b in &ids {
+                    if a != b {
+                        collections.push(vec![*a, *b]);
+                    }
+                }
+            }
+            for leaves in &collections {
+                let case = || json!({"family": what, "source": f.to_json(), "root": root, "leaves": leaves});
+                super::c14::check_one(ctx, &src, &r, Mode::Defaults, &up, root, leaves, &case, None);
+            }
+        }
+        ctx.sample(|| json!({"family": what, "roots": ids.len()}));
+    }
+}
+
 pub fn run(ctx: &mut Ctx) {
     ctx.rule = "case = (labelled DAG, annotated subset S) with all listed supply orders of the annotation facts; records: genes 11<-S, 22<-complement(S), bare 33; OMIM 600001<-rot1(S), bare 600002; ORPHA 77<-rot2(S), 78<-every term, bare 79, 80; distinct by construction; non-trivial = some annotated term has ancestors (inheritance must happen)".into();
     ctx.assumptions = vec![
@@ -391,4 +471,5 @@ pub fn run(ctx: &mut Ctx) {
         "HashMap iteration order is not controlled; observations are sorted".into(),
     ];
     explore(ctx, "ann");
+    sub_exact(ctx, "ann");
 }
